@@ -24,8 +24,10 @@ def _save(ttfont):
     return project.sha_bytes(data), project.table_digests(data)
 
 
-def _prep_kwargs(kwargs):
+def _prep_kwargs(kwargs, shared=None):
     kw = dict(kwargs or {})
+    if kw.get("ftConfig") == "@shared":
+        kw["ftConfig"] = shared          # ONE options object owned by the caller and handed to every call of the history
     if "filters" in kw:
         from .checks import filters_common as fc
 
@@ -88,9 +90,15 @@ def run_history(spec):
         kind, obj, fonts = load_source(spec, workdir)
         ds = obj if kind == "ds" else None
         calls = []
+        shared_cfg = None
+        if spec.get("sharedFtConfig"):
+            # keyed the way callers usually do it: by the option objects fontTools exports
+            from fontTools.config import OPTIONS
+
+            shared_cfg = {OPTIONS.get(k, k): v for k, v in spec["sharedFtConfig"].items()}
         for k, call in enumerate(spec["history"]):
             fn = call["fn"]
-            kw = _prep_kwargs(call.get("kwargs"))
+            kw = _prep_kwargs(call.get("kwargs"), shared_cfg)
             inplace = bool(kw.get("inplace", False))
             rec = {"k": k, "fn": fn, "inplace": inplace, "optsKey": snapshot.sha({a: b for a, b in (call.get("kwargs") or {}).items() if a != "inplace"})}
             with tracer.tracing(fonts, designspace=ds, snap=spec.get("stage_snapshots", True), glyphsets=False) as tr:
